@@ -172,7 +172,7 @@ def rpower(base, x):
 
     if abs(b - math.e) < 1e-15:
         return exp(x)
-    raise Unsupported("rpow with base %r" % (base,))
+    return power(SV(zval(b)), x)
 
 
 def power(x, alpha):
@@ -260,9 +260,49 @@ def _asin_link(eng, u, t):
     eng.add_axiom(z3.Implies(z3.And(u == F("sin")(t), t >= -H, t <= H), F("arcsin")(u) == t))
 
 
+LIGHT_TRIG = False  # when True: sin is only a strictly increasing function on [-pi/2, pi/2] with sin(0)=0, sin(pi/2)=1
+
+
+class light_trig:
+    def __enter__(self):
+        global LIGHT_TRIG
+        self.old, LIGHT_TRIG = LIGHT_TRIG, True
+
+    def __exit__(self, *a):
+        global LIGHT_TRIG
+        LIGHT_TRIG = self.old
+
+
+def _light_sin_axioms(eng, t):
+    pi()
+    H = PI / 2
+    s = F("sin")(t)
+    if "lsin_anchor" not in eng.uf_apps:
+        eng.uf_apps["lsin_anchor"] = [True]
+        zero = z3.RealVal(0)
+        _register(eng, "lsin", zero)
+        eng.add_axiom(F("sin")(zero) == 0)
+        _register(eng, "lsin", H)
+        eng.add_axiom(F("sin")(H) == 1)
+        eng.add_axiom(z3.And((zero < H), F("sin")(zero) < F("sin")(H)))
+    for b in _apps(eng, "lsin"):
+        if b.eq(t):
+            continue
+        eng.add_axiom(
+            z3.Implies(
+                z3.And(t >= -H, t <= H, b >= -H, b <= H),
+                z3.And((t < b) == (F("sin")(t) < F("sin")(b)), (b < t) == (F("sin")(b) < F("sin")(t))),
+            )
+        )
+
+
 def _trig(x):
     eng = Engine.cur
     t = _real(x)
+    if LIGHT_TRIG:
+        if _register(eng, "lsin", t):
+            _light_sin_axioms(eng, t)
+        return t
     if _register(eng, "trig", t):
         _trig_axioms(eng, t)
     return t
